@@ -594,6 +594,30 @@ def run(ctx):
                     jb["impl_ans"] = impl_answer(jb, wire)
             except Unmodelled:
                 pass
+    # ---- an inline-if where a modifiable reference is required: swapping the branches (with the condition negated) must not matter ----
+    LV = {"int": ["i", "j", "ci", "pci", "pri"], "bool": ["b", "b2", "cb"], "double": ["d", "d2", "cd"], "Rc": ["r", "r2", "cr", "pcrr", "prr"],
+          "arr": ["arr", "arr2", "carr3", "pra"], "bi": ["bi", "bi2"], "S": ["s", "s2", "pcs", "prs"]}
+    ljobs = []
+    for fn, ops_ in LV.items():
+        for a in ops_:
+            for b_ in ops_:
+                sc = "P" if (a.startswith("p") or b_.startswith("p")) else "-"
+                ljobs.append({"cls": "lviif", "f": fn, "a": a, "b": b_, "neg": False, "line": "X %s f_%s((b) ? (%s) : (%s))" % (sc, fn, a, b_)})
+                ljobs.append({"cls": "lviif", "f": fn, "a": a, "b": b_, "neg": True, "line": "X %s f_%s(!(b) ? (%s) : (%s))" % (sc, fn, b_, a)})
+    dtl, lerr = run_harness(ctx, build, ljobs, decls)
+    nlv = 0
+    if lerr is None:
+        for k in range(0, len(ljobs), 2):
+            j1, j2 = ljobs[k], ljobs[k + 1]
+            x1, x2 = parse_x(j1["impl"]), parse_x(j2["impl"])
+            if x1 is None or x2 is None:
+                continue
+            nlv += 1
+            if x1["ok"] != x2["ok"]:
+                ctx.finding("inlineif-lvalue:%s" % j1["f"], "`%s` -> %s but `%s` -> %s" % (j1["line"][4:], "accepted" if x1["ok"] else "rejected (%s)" % x1["msgs"],
+                                                                                           j2["line"][4:], "accepted" if x2["ok"] else "rejected (%s)" % x2["msgs"]),
+                            {"declarations": decls, "first": j1["line"], "second": j2["line"], "answers": [j1["impl"], j2["impl"]]})
+    cov["inlineif_as_reference_argument_pairs"] = nlv
     # ---- a sample of the same questions under ASan+UBSan: same answers, no sanitizer report
     if not os.environ.get("C14_NO_ASAN"):
         sample = [dict(cls=j["cls"], line=j["line"]) for j in ctx.rng.sample(jobs, min(len(jobs), 3000 if not ctx.thorough else 20000))]
